@@ -64,6 +64,7 @@ Next1 ==
                [] e.op = "start" -> d' = (IF e.rc # 0 THEN [d EXCEPT !.active = FALSE] ELSE d) /\ NoFlag
                [] OTHER -> d' = d /\ NoFlag)
        [] k = "Hang" -> Flag(<<"Hang">>) /\ d' = d
+       [] k = "Crash" -> Flag(<<"Crash">>) /\ d' = d
        [] k \in {"End", "Sched", "CamNoData", "CamFail", "MonMap", "MonUnmap", "Api2"} -> d' = d /\ NoFlag
        [] OTHER -> Flag(<<"UnknownEvent">>) /\ d' = d
 Finish == /\ l = Len(Tr) + 1 /\ ~done /\ done' = TRUE
